@@ -18,6 +18,7 @@ import (
 	"github.com/oasisprotocol/oasis-core/go/consensus/api/transaction"
 	governance "github.com/oasisprotocol/oasis-core/go/governance/api"
 	registry "github.com/oasisprotocol/oasis-core/go/registry/api"
+	roothash "github.com/oasisprotocol/oasis-core/go/roothash/api"
 	staking "github.com/oasisprotocol/oasis-core/go/staking/api"
 	upgrade "github.com/oasisprotocol/oasis-core/go/upgrade/api"
 )
@@ -715,7 +716,29 @@ func (g *TxGen) mkUnfreeze() *GenTx {
 func (g *TxGen) mkProposal() *GenTx {
 	a := g.pickSigner()
 	var pc governance.ProposalContent
-	switch g.rng.IntN(4) {
+	switch g.rng.IntN(5) {
+	case 4:
+		// Roothash parameter change: the limits a runtime descriptor is validated against move below or
+		// above what registered runtimes declare (registered runtimes keep their values; later
+		// registrations, updates and resumptions meet the new limits).
+		if g.h.Sc.Runtime == nil {
+			vp := beacon.EpochTime(1 + g.rng.IntN(3))
+			ch := governance.ConsensusParameterChanges{VotingPeriod: &vp}
+			pc.ChangeParameters = &governance.ChangeParametersProposal{Module: governance.ModuleName, Changes: cbor.Marshal(ch)}
+			break
+		}
+		var ch roothash.ConsensusParameterChanges
+		m := []uint32{2, 4, 6, 16, 32, 40}[g.rng.IntN(6)]
+		im := []uint32{0, 2, 4, 8, 32}[g.rng.IntN(5)]
+		switch g.rng.IntN(3) {
+		case 0:
+			ch.MaxRuntimeMessages = &m
+		case 1:
+			ch.MaxInRuntimeMessages = &im
+		default:
+			ch.MaxRuntimeMessages, ch.MaxInRuntimeMessages = &m, &im
+		}
+		pc.ChangeParameters = &governance.ChangeParametersProposal{Module: roothash.ModuleName, Changes: cbor.Marshal(ch)}
 	case 0:
 		// Staking parameter change.
 		v := q(uint64(g.rng.IntN(30)))
@@ -729,6 +752,15 @@ func (g *TxGen) mkProposal() *GenTx {
 		// Governance parameter change.
 		vp := beacon.EpochTime(1 + g.rng.IntN(3))
 		ch := governance.ConsensusParameterChanges{VotingPeriod: &vp}
+		if g.rng.IntN(2) == 0 {
+			// The deposit asked of later proposals moves while earlier proposals, which deposited the old
+			// amount, are still open.
+			dep := q([]uint64{0, 50, 100, 150, 300}[g.rng.IntN(5)])
+			ch = governance.ConsensusParameterChanges{MinProposalDeposit: &dep}
+			if g.rng.IntN(2) == 0 {
+				ch.VotingPeriod = &vp
+			}
+		}
 		pc.ChangeParameters = &governance.ChangeParametersProposal{Module: governance.ModuleName, Changes: cbor.Marshal(ch)}
 	case 2:
 		ep := beacon.EpochTime(g.view().Epoch + 300 + uint64(g.rng.IntN(50)))
